@@ -1000,6 +1000,141 @@ func kvEach(fset *token.FileSet, fd *ast.FuncDecl) (row string, ok bool) {
 	return fmt.Sprintf("KVEach %s %s %d (%s) %s %s", cstr(name), e.ptypes(), over, e.norm(gc.Args[0]), cstr(target), clist(as)), true
 }
 
+// ------------------------------------------------------------------- client managers, script cache
+// clientRow: `val, err := <manager>.Get(<key>, func() (io.Closer, error) { ... client := red.<Ctor>(<arg>) ...
+// client.AddHook(h) ... return client, nil })`.  fresh = the constructor's argument is a composite literal
+// `&red.<Ty>{...}` written at the call site (so every client owns the options it was created with).
+func clientRow(fset *token.FileSet, fd *ast.FuncDecl) (row string) {
+	name := fd.Name.Name
+	defer func() {
+		if p := recover(); p != nil {
+			if u, ok := p.(unknown); ok {
+				row = "ClientUnknown " + cstr(name) + " " + cstr(string(u))
+			} else {
+				row = "ClientUnknown " + cstr(name) + " " + cstr(fmt.Sprint("translator panic: ", p))
+			}
+		}
+	}()
+	e := &env{fset: fset, idx: map[string]int{}, locals: map[string][]ast.Stmt{}}
+	var get *ast.CallExpr
+	ngets := 0
+	ast.Inspect(fd.Body, func(x ast.Node) bool {
+		if c, ok := x.(*ast.CallExpr); ok {
+			if s, ok := c.Fun.(*ast.SelectorExpr); ok && s.Sel.Name == "Get" && strings.HasSuffix(ident(s.X), "Manager") {
+				get = c
+				ngets++
+			}
+		}
+		return true
+	})
+	if ngets != 1 || len(get.Args) != 2 {
+		fail("no single <manager>.Get(key, create) call")
+	}
+	mgr := ident(get.Fun.(*ast.SelectorExpr).X)
+	key := e.canon(get.Args[0], "")
+	fl, ok := get.Args[1].(*ast.FuncLit)
+	if !ok {
+		fail("create argument is not a function literal")
+	}
+	var ctor *ast.CallExpr
+	nctor := 0
+	var hooks []string
+	ast.Inspect(fd, func(x ast.Node) bool {
+		if c, ok := x.(*ast.CallExpr); ok {
+			if pk, fn := sel(c.Fun); pk == "red" && strings.HasPrefix(fn, "New") {
+				ctor = c
+				nctor++
+			}
+			if s, ok := c.Fun.(*ast.SelectorExpr); ok && s.Sel.Name == "AddHook" && len(c.Args) == 1 {
+				hooks = append(hooks, e.canon(c.Args[0], ""))
+			}
+		}
+		return true
+	})
+	if nctor != 1 || len(ctor.Args) != 1 {
+		fail("%d go-redis constructor calls (want 1)", nctor)
+	}
+	inside := false
+	ast.Inspect(fl, func(x ast.Node) bool {
+		if x == ast.Node(ctor) {
+			inside = true
+		}
+		return true
+	})
+	if !inside {
+		fail("the go-redis client is not constructed inside the create function")
+	}
+	_, ctorName := sel(ctor.Fun)
+	fresh := false
+	ty := e.canon(ctor.Args[0], "")
+	var fields []string
+	if u, ok := ctor.Args[0].(*ast.UnaryExpr); ok && u.Op == token.AND {
+		if cl, ok := u.X.(*ast.CompositeLit); ok {
+			if pk, t := sel(cl.Type); pk == "red" {
+				fresh = true
+				ty = t
+				for _, el := range cl.Elts {
+					kv, ok := el.(*ast.KeyValueExpr)
+					if !ok {
+						fail("positional field in the options literal")
+					}
+					fields = append(fields, "("+cstr(ident(kv.Key))+", "+cstr(e.canon(kv.Value, ""))+")")
+				}
+			}
+		}
+	}
+	// every statement of the function besides the literal is part of the row too: a write to shared options
+	// anywhere in the function changes this text
+	var rest []string
+	for _, st := range fl.Body.List {
+		if n, _ := countNode(st, ctor); n > 0 {
+			continue
+		}
+		rest = append(rest, e.canon(st, ""))
+	}
+	return fmt.Sprintf("ClientNew %s %s %s %s %s %v %s %s %s", cstr(name), cstr(mgr), cstr(key), cstr(ctorName), cstr(ty), fresh,
+		clist(fields), cstrs(hooks), cstrs(rest))
+}
+
+func countNode(root ast.Node, target ast.Node) (int, bool) {
+	n := 0
+	ast.Inspect(root, func(x ast.Node) bool {
+		if x == target {
+			n++
+		}
+		return true
+	})
+	return n, n > 0
+}
+
+// bodyRow: a function rendered statement by statement (canonical token text).
+func bodyRow(fset *token.FileSet, fd *ast.FuncDecl) string {
+	e, _ := newEnv(fset, fd, nil, false)
+	var ss []string
+	for _, st := range fd.Body.List {
+		ss = append(ss, e.canon(st, ""))
+	}
+	name := fd.Name.Name
+	if rt := recvType(fd); rt != "" {
+		name = strings.TrimPrefix(rt, "*") + "." + name
+	}
+	return "(" + cstr(name) + ", " + cstrs(ss) + ")"
+}
+
+func funcsOf(fset *token.FileSet, path string) []*ast.FuncDecl {
+	f, err := parser.ParseFile(fset, path, nil, 0)
+	if err != nil {
+		return nil
+	}
+	var out []*ast.FuncDecl
+	for _, d := range f.Decls {
+		if fd, ok := d.(*ast.FuncDecl); ok && fd.Body != nil {
+			out = append(out, fd)
+		}
+	}
+	return out
+}
+
 // ------------------------------------------------------------------------------------------ main
 func recvType(fd *ast.FuncDecl) string {
 	if fd.Recv == nil || len(fd.Recv.List) != 1 {
@@ -1108,4 +1243,23 @@ func main() {
 	emit("kv_table", "kvrow", kvRows)
 	fmt.Println("(* every other exported method of kv.kvStore, in source order *)")
 	emit("kv_plain_table", "kvrow", kvPlain)
+
+	dir := filepath.Dir(rfile)
+	var clientRows, bodyRows []string
+	for _, fn := range []string{"clientmanager.go", "clustermanager.go"} {
+		fds := funcsOf(fset, filepath.Join(dir, fn))
+		if len(fds) == 0 {
+			clientRows = append(clientRows, "ClientUnknown "+cstr(fn)+" "+cstr("no function found"))
+		}
+		for _, fd := range fds {
+			clientRows = append(clientRows, clientRow(fset, fd))
+		}
+	}
+	for _, fd := range funcsOf(fset, filepath.Join(dir, "scriptcache.go")) {
+		bodyRows = append(bodyRows, bodyRow(fset, fd))
+	}
+	fmt.Println("(* how the go-redis client of an address is created: clientmanager.go, clustermanager.go *)")
+	emit("client_table", "clientrow", clientRows)
+	fmt.Println("(* scriptcache.go, statement by statement *)")
+	emit("scriptcache_table", "(string * list string)", bodyRows)
 }
